@@ -104,13 +104,16 @@ class _Gen:
         self.nn += 1
         nid = self.nn
         ops = ["Relu", "Neg", "Identity", "Add", "Add", "Mul", "Mul", "Clip"]
-        if depth < (2 if self.size > 1 else 1):
+        maxdepth = {0: 1, 1: 2, 2: 3}[self.size]
+        if depth < maxdepth:
             ops += ["If", "If"]
         if self.mode == "structural":
             ops += ["Multi", "Multi"]
-            if depth < 2:
-                ops += ["Body", "Body", "Branches"]
+            if depth < maxdepth:
+                ops += ["Body", "Body", "Branches", "Branches"]
         op = rng.choice(ops)
+        if self.mode == "structural" and depth < maxdepth and rng.random() < (0.3 if depth == 0 else 0.2):
+            op = rng.choice(["Body", "Branches", "Branches", "If"])
         subs, graphs_attr = [], False
         if op in ("Relu", "Neg", "Identity"):
             ins, n_out = [self.pick(visible, scope, local)], 1
@@ -126,7 +129,7 @@ class _Gen:
                 ins = ins[:2]                      # trailing omitted input dropped
             n_out = 1
         elif op == "Multi":
-            ins = [self.pick(visible, scope, local) for _ in range(rng.randrange(0, 3))]
+            ins = [self.pick(visible, scope, local) for _ in range(rng.randrange(0, 4))]
             n_out = rng.randrange(1, 4)
         elif op == "If":
             ins, n_out = [self.cond], rng.randrange(1, 3)
@@ -137,7 +140,7 @@ class _Gen:
             subs = [self.graph(visible, depth + 1, None, 0) for _ in range(rng.randrange(1, 3))]
         else:  # Branches: one GRAPHS attribute
             ins, n_out, graphs_attr = [], 1, True
-            subs = [self.graph(visible, depth + 1, None, 0) for _ in range(rng.randrange(0, 3))]
+            subs = [self.graph(visible, depth + 1, None, 0) for _ in range(rng.choice([0, 1, 2, 2, 3]))]
         outs = [self.value() for _ in range(n_out)]
         return {"nid": nid, "op": op, "ins": ins, "outs": outs, "subs": subs, "graphs_attr": graphs_attr}
 
